@@ -11,7 +11,20 @@ def job(chk, item):
     detector, positions, pair_mode = item
     e = chk.engine()
     results = []
-    if not pair_mode:
+    if pair_mode == 'composed':
+        # several occurrences (form x position, drawn by the seed) in ONE file: every one must be judged as it is alone
+        nforms = len(fam.forms_for(detector, sol.TreeBuilder()))
+        for combo in positions:
+            b = sol.TreeBuilder()
+            parts, labels = [], []
+            for (i, pos) in combo:
+                label, expr = fam.forms_for(detector, b)[i % nforms]
+                parts += fam.POSITIONS[pos](b, expr)
+                labels.append('%s @ %s' % (label, pos))
+            su = b.source_unit([b.pragma('solidity', '0.8.16')] + parts)
+            names = {v.decl().name() for v in b.loc_vars}
+            results.append(fam.run_case(chk, e, detector, su, 'composed: ' + ' || '.join(labels), names))
+    elif not pair_mode:
         for pos in positions:
             b0 = sol.TreeBuilder()
             nforms = len(fam.forms_for(detector, b0))
@@ -63,7 +76,7 @@ def body(chk):
         positions = allpos
     chk.bounds = {'positions': '%d of %d syntactic positions (%s)' % (len(positions), len(allpos), 'quick: fixed core + 3 rotating by seed' if chk.quick else 'all'),
                   'forms': 'all canonical / non-matching / near-miss forms of DESIGN.md section 8 per detector; shift_math literal = symbolic 130-bit natural',
-                  'occurrences per file': '1 (all positions) and 2 (same function, two contracts)',
+                  'occurrences per file': '1 (all positions), 2 (same function, two contracts) and 3-5 seeded (form, position) members composed into one file (12 files per detector, thorough 120)',
                   'outside': 'deeper nesting of positions inside positions (covered by C01\'s induction), inline assembly content'}
     chk.assumptions = ['tree families are parser-producible: every validated path is printed, re-parsed by the real parser and compared with the executed tree',
                        'Vec/HashSet/Option/String contracts of DESIGN.md 2.4; Loc offsets are free symbols (results may not depend on them)']
@@ -79,6 +92,9 @@ def body(chk):
             pairs = pairs[:40]
         for k in range(0, len(pairs), 40):
             items.append((d, pairs[k:k + 40], True))
+        ncomp = 12 if chk.quick else 120
+        combos = [[(chk.rng.randrange(n), chk.rng.choice(allpos)) for _ in range(chk.rng.choice([3, 4, 5]))] for _ in range(ncomp)]
+        items.append((d, combos, 'composed'))
     chk.parallel(job, items)
     # vacuity guard: every detector's family must contain paths that report and paths that do not
     for d in DETECTORS:
